@@ -2,16 +2,399 @@ package main
 
 import (
 	"encoding/json"
+	"fmt"
+	"go/ast"
+	"go/types"
 	"os"
 	"os/exec"
 	"path/filepath"
+	"regexp"
+	"strconv"
 	"strings"
+	"time"
 )
+
+// Replay (DESIGN 4.3). When a solver answers `sat` for a failed obligation of a unit whose inputs are all of plain
+// types (integers, booleans, strings, byte slices), the model is read back with get-value, turned into Go literals,
+// and the real function is called on them through an in-package test injected with `go test -overlay` (nothing is
+// written to the repository). The replay confirms the violation when
+//   - the obligation is a safety one (index, slice, nil, division, conversion...) and the call panics, or
+//   - the obligation is a postcondition and the postcondition, read as a Go expression over the parameters and
+//     `result`, evaluates to false after the call.
+// Anything else (abstract writers, heap-shaped inputs, quantified goals that only come back `unknown`) is reported
+// without a failing input.
+
+type replayInput struct {
+	name string
+	typ  types.Type
+	term string
+	lit  string // Go literal, filled from the model
+}
+
+var numRe = regexp.MustCompile(`^\(?\s*(-?)\s*\(?(-)?\s*([0-9]+)\)?\s*\)?$`)
+
+func parseSMTInt(s string) (int64, bool) {
+	s = strings.TrimSpace(s)
+	neg := false
+	if strings.HasPrefix(s, "(-") {
+		neg = true
+		s = strings.TrimSuffix(strings.TrimSpace(s[2:]), ")")
+		s = strings.TrimSpace(s)
+	}
+	if strings.HasPrefix(s, "#x") {
+		u, err := strconv.ParseUint(s[2:], 16, 64)
+		return int64(u), err == nil
+	}
+	if strings.HasPrefix(s, "#b") {
+		u, err := strconv.ParseUint(s[2:], 2, 64)
+		return int64(u), err == nil
+	}
+	v, err := strconv.ParseInt(s, 10, 64)
+	if err != nil {
+		return 0, false
+	}
+	if neg {
+		v = -v
+	}
+	return v, true
+}
+
+// getValues runs the obligation's query with (get-value ...) for the given terms and returns their values.
+func getValues(query, solver string, terms []string) ([]string, string) {
+	if len(terms) == 0 {
+		return nil, ""
+	}
+	if strings.HasPrefix(query, "/") && !strings.Contains(query, "\n") {
+		data, err := os.ReadFile(query)
+		if err != nil {
+			return nil, "query file not available: " + err.Error()
+		}
+		query = string(data)
+	}
+	q := strings.Replace(query, "(get-model)\n", "", 1)
+	var b strings.Builder
+	b.WriteString(q)
+	for _, t := range terms {
+		b.WriteString("(get-value (" + t + "))\n")
+	}
+	tmp, err := os.MkdirTemp("", "govc-model")
+	if err != nil {
+		return nil, err.Error()
+	}
+	defer os.RemoveAll(tmp)
+	f := filepath.Join(tmp, "q.smt2")
+	_ = os.WriteFile(f, []byte(b.String()), 0o644)
+	r := runSolver(solver, f, 30*time.Second)
+	lines := strings.Split(strings.TrimSpace(r.Output), "\n")
+	if len(lines) == 0 || strings.TrimSpace(lines[0]) != "sat" {
+		return nil, "model query did not return sat: " + r.Output
+	}
+	// each get-value answer is one s-expression "((term value))", possibly spread over several lines
+	rest := strings.Join(lines[1:], " ")
+	var vals []string
+	for _, t := range terms {
+		i := strings.Index(rest, "((")
+		if i < 0 {
+			return nil, "cannot parse model values: " + r.Output
+		}
+		depth, j := 0, i
+		for ; j < len(rest); j++ {
+			if rest[j] == '(' {
+				depth++
+			} else if rest[j] == ')' {
+				depth--
+				if depth == 0 {
+					break
+				}
+			}
+		}
+		ans := rest[i : j+1]
+		rest = rest[j+1:]
+		inner := strings.TrimSpace(ans[2 : len(ans)-2])
+		// inner = "<term> <value>": the value is what follows the echoed term
+		tt := strings.Join(strings.Fields(t), " ")
+		in := strings.Join(strings.Fields(inner), " ")
+		if strings.HasPrefix(in, tt) {
+			vals = append(vals, strings.TrimSpace(in[len(tt):]))
+		} else {
+			k := strings.LastIndex(in, " ")
+			vals = append(vals, strings.TrimSpace(in[k+1:]))
+		}
+	}
+	return vals, ""
+}
+
+func replayable(t types.Type) string {
+	switch u := types.Unalias(t).Underlying().(type) {
+	case *types.Basic:
+		switch {
+		case u.Info()&types.IsInteger != 0:
+			return "int"
+		case u.Info()&types.IsBoolean != 0:
+			return "bool"
+		case u.Info()&types.IsString != 0:
+			return "string"
+		}
+	case *types.Slice:
+		if b, ok := types.Unalias(u.Elem()).Underlying().(*types.Basic); ok && b.Kind() == types.Uint8 {
+			return "bytes"
+		}
+	}
+	return ""
+}
 
 // tryReplay attempts to turn the solver's model into a concrete input and run it against the real code.
 func tryReplay(w *World, pr *propRun, o *Oblig, rp map[string]any) bool {
+	if o.Status != "sat" {
+		rp["replay"] = "no model: the solver did not answer sat (" + o.Status + ")"
+		return false
+	}
+	var u *UnitResult
+	for _, r := range pr.Units {
+		if r.Contract != nil && r.Contract.Name == o.Unit && strings.HasPrefix(o.Name, r.Name+"/") {
+			u = r
+		}
+	}
+	if u == nil || u.engine == nil || u.Contract == nil || u.Contract.Clause != nil || u.Contract.Decl == nil {
+		rp["replay"] = "not attempted: the unit is a clause of a larger function"
+		return false
+	}
+	e, decl := u.engine, u.Contract.Decl
+	if e.bv {
+		// bit-vector terms print as #x..., handled by parseSMTInt
+	}
+	pk := w.Pkgs[u.Pkg]
+	if pk == nil || decl.Recv != nil {
+		rp["replay"] = "not attempted: method receivers are not reconstructed from models"
+		return false
+	}
+	var ins []*replayInput
+	for _, f := range decl.Type.Params.List {
+		for _, id := range f.Names {
+			obj := pk.Info.Defs[id]
+			if obj == nil || id.Name == "_" {
+				rp["replay"] = "not attempted: unnamed parameter"
+				return false
+			}
+			v, ok := e.inputs[obj]
+			if !ok || replayable(obj.Type()) == "" {
+				rp["replay"] = fmt.Sprintf("not attempted: parameter %s of type %s is not reconstructed from models", id.Name, types.TypeString(obj.Type(), nil))
+				return false
+			}
+			ins = append(ins, &replayInput{name: id.Name, typ: obj.Type(), term: v.T})
+		}
+	}
+	solver := o.Solver
+	if solver == "" {
+		solver = "z3-new"
+	}
+	qual := func(p *types.Package) string { return "" }
+	// phase 1: scalars, lengths
+	var terms []string
+	for _, in := range ins {
+		switch replayable(in.typ) {
+		case "int", "bool":
+			terms = append(terms, in.term)
+		case "string":
+			terms = append(terms, sx("s_len", in.term))
+		case "bytes":
+			terms = append(terms, sx("l_len", in.term))
+		}
+	}
+	// prefer a small model: first ask with every string at most 64 bytes long, then without the bound
+	query := o.Query
+	if strings.HasPrefix(query, "/") && !strings.Contains(query, "\n") {
+		if data, err := os.ReadFile(query); err == nil {
+			query = string(data)
+		}
+	}
+	var bound strings.Builder
+	for _, in := range ins {
+		if replayable(in.typ) == "string" {
+			fmt.Fprintf(&bound, "(assert (<= (s_len %s) 64))\n", in.term)
+		}
+	}
+	small := strings.Replace(query, "(check-sat)\n", bound.String()+"(check-sat)\n", 1)
+	vals, errs := getValues(small, solver, terms)
+	if errs == "" {
+		query = small
+	} else {
+		vals, errs = getValues(query, solver, terms)
+	}
+	if errs != "" {
+		rp["replay"] = errs
+		return false
+	}
+	lens := map[*replayInput]int64{}
+	var pinTerms, pinVals []string
+	for i, in := range ins {
+		switch replayable(in.typ) {
+		case "int", "bool":
+			pinTerms = append(pinTerms, in.term)
+			pinVals = append(pinVals, vals[i])
+		}
+		switch replayable(in.typ) {
+		case "int":
+			n, ok := parseSMTInt(vals[i])
+			if !ok {
+				rp["replay"] = "cannot parse model value " + vals[i]
+				return false
+			}
+			in.lit = fmt.Sprintf("%s(%d)", types.TypeString(in.typ, qual), n)
+			if b, ok := types.Unalias(in.typ).Underlying().(*types.Basic); ok && b.Info()&types.IsUnsigned != 0 && e.bv {
+				in.lit = fmt.Sprintf("%s(%d)", types.TypeString(in.typ, qual), uint64(n))
+			}
+		case "bool":
+			in.lit = strings.TrimSpace(vals[i])
+		default:
+			n, ok := parseSMTInt(vals[i])
+			if !ok || n < 0 || n > 4096 {
+				rp["replay"] = fmt.Sprintf("model length %s of %s is not replayed (limit 4096 bytes)", vals[i], in.name)
+				return false
+			}
+			lens[in] = n
+		}
+	}
+	// phase 2: contents
+	terms = nil
+	for _, in := range ins {
+		n := lens[in]
+		switch replayable(in.typ) {
+		case "string":
+			for k := int64(0); k < n; k++ {
+				terms = append(terms, sx("select", sx("s_arr", in.term), sx("+", sx("s_off", in.term), fmt.Sprint(k))))
+			}
+		case "bytes":
+			rp["replay"] = "not attempted: byte-slice contents live in the heap model"
+			return false
+		}
+	}
+	// phase 2 must see the same model: pin the scalars and lengths found in phase 1
+	var pin strings.Builder
+	for _, in := range ins {
+		switch replayable(in.typ) {
+		case "string":
+			fmt.Fprintf(&pin, "(assert (= (s_len %s) %d))\n", in.term, lens[in])
+		}
+	}
+	for i, t := range pinTerms {
+		fmt.Fprintf(&pin, "(assert (= %s %s))\n", t, pinVals[i])
+	}
+	query = strings.Replace(query, "(check-sat)\n", pin.String()+"(check-sat)\n", 1)
+	vals, errs = getValues(query, solver, terms)
+	if errs != "" {
+		rp["replay"] = errs
+		return false
+	}
+	vi := 0
+	for _, in := range ins {
+		if replayable(in.typ) != "string" {
+			continue
+		}
+		var bs []string
+		for k := int64(0); k < lens[in]; k++ {
+			n, ok := parseSMTInt(vals[vi])
+			vi++
+			if !ok {
+				n = 0
+			}
+			bs = append(bs, fmt.Sprint(uint8(n)))
+		}
+		in.lit = fmt.Sprintf("%s([]byte{%s})", types.TypeString(in.typ, qual), strings.Join(bs, ", "))
+	}
+	// the test
+	var args, show []string
+	for _, in := range ins {
+		args = append(args, in.name)
+		show = append(show, fmt.Sprintf("%s = %s", in.name, in.lit))
+	}
+	nres := 0
+	if decl.Type.Results != nil {
+		for _, f := range decl.Type.Results.List {
+			if len(f.Names) == 0 {
+				nres++
+			} else {
+				nres += len(f.Names)
+			}
+		}
+	}
+	var resNames []string
+	for i := 0; i < nres; i++ {
+		if nres == 1 {
+			resNames = append(resNames, "result")
+		} else {
+			resNames = append(resNames, fmt.Sprintf("result%d", i))
+		}
+	}
+	var b strings.Builder
+	fmt.Fprintf(&b, "package %s\n\nimport \"testing\"\n\n", pk.Types.Name())
+	fmt.Fprintf(&b, "// generated by govc from the model of obligation %s\nfunc TestVerifReplay(t *testing.T) {\n", o.Name)
+	for _, in := range ins {
+		fmt.Fprintf(&b, "\tvar %s %s = %s\n\t_ = %s\n", in.name, types.TypeString(in.typ, qual), in.lit, in.name)
+	}
+	postKind := o.Kind == "post"
+	fmt.Fprintf(&b, "\tdefer func() {\n\t\tif r := recover(); r != nil {\n\t\t\tt.Fatalf(\"REPLAY-PANIC: %%v\", r)\n\t\t}\n\t}()\n")
+	call := fmt.Sprintf("%s(%s)", decl.Name.Name, strings.Join(args, ", "))
+	if nres > 0 {
+		fmt.Fprintf(&b, "\t%s := %s\n", strings.Join(resNames, ", "), call)
+		for _, r := range resNames {
+			fmt.Fprintf(&b, "\t_ = %s\n", r)
+		}
+	} else {
+		fmt.Fprintf(&b, "\t%s\n", call)
+	}
+	if postKind {
+		ens := postText(u.Contract, o.Name)
+		if ens == "" || !plainGo(ens) {
+			rp["replay"] = "not attempted: the postcondition uses specification-only operators"
+			return false
+		}
+		// the contract file is part of the package under -tags verif, so imp() and the spec functions are callable
+		fmt.Fprintf(&b, "\tif !(%s) {\n\t\tt.Fatalf(\"REPLAY-POST-FAILED: %%s\", %q)\n\t}\n", rewriteImp(ens), ens)
+	}
+	b.WriteString("}\n")
+	src := b.String()
+	out, failed := runOverlayTest(pk.Dir, src)
+	rp["input"] = show
+	rp["go_test"] = src
+	rp["go_test_pkg_dir"] = pk.Dir
+	rp["go_test_output"] = out
+	marker := "REPLAY-PANIC"
+	if postKind {
+		marker = "REPLAY-POST-FAILED"
+	}
+	if failed && strings.Contains(out, marker) {
+		rp["replay"] = "confirmed on the real code: " + marker
+		return true
+	}
+	rp["replay"] = "the model did not reproduce on the real code (the obligation still failed; the model may rely on an abstraction)"
 	return false
 }
+
+// postText returns the source text of the postcondition an obligation name post#i refers to.
+func postText(c *Contract, name string) string {
+	i := strings.LastIndex(name, "/post#")
+	if i < 0 {
+		return ""
+	}
+	n, err := strconv.Atoi(name[i+6:])
+	if err != nil || n < 0 || n >= len(c.Ensures) {
+		return ""
+	}
+	return c.Ensures[n].Text
+}
+
+// plainGo: the expression uses no specification-only helper.
+func plainGo(s string) bool {
+	for _, h := range []string{"old(", "wout(", "wfailed(", "werr(", "wonly(", "lastret(", "ncalls(", "called(", "lastInt(", "lastArgInt(", "lastErr(", "lastcb(", "entry(", "rangeIndex(", "rangeWidth(", "wkey("} {
+		if strings.Contains(s, h) {
+			return false
+		}
+	}
+	return true
+}
+
+var _ = ast.Inspect
 
 // runOverlayTest injects testSrc as an in-package test file of pkgDir through `go test -overlay` (the repository is not
 // modified) and reports its output and whether the test failed.
